@@ -1,2 +1,38 @@
 import RModel
-def main : IO Unit := IO.println "ok"
+open RModel RModel.Driver
+
+def stepAll (st : St) (cmd : List String) (got : String) : St × Verdict :=
+  match step32 st cmd got with
+  | some r => r
+  | none => (st, if got.startsWith "skip" then none else some "skip")
+
+partial def loop (script go : IO.FS.Stream) (st : St) (lineNo : Nat) (fails : Nat) : IO Nat := do
+  let l ← script.getLine
+  if l.isEmpty then return fails
+  let g ← go.getLine
+  let line := (l.dropEndWhile (fun c => c == '\n' || c == '\r')).toString
+  let got := (g.dropEndWhile (fun c => c == '\n' || c == '\r')).toString
+  if line.isEmpty || line.startsWith "#" then
+    loop script go st (lineNo + 1) fails
+  else
+    let cmd := (line.splitOn " ").filter (· ≠ "")
+    let (st', v) := stepAll st cmd got
+    match v with
+    | none => loop script go st' (lineNo + 1) fails
+    | some exp =>
+      let shown := if line.length > 200 then (line.take 200).toString ++ "..." else line
+      IO.println s!"MISMATCH line={lineNo} cmd=[{shown}] expected=[{exp}] got=[{got}]"
+      -- after the first mismatch the model state may have diverged: stop
+      return fails + 1
+
+def main (args : List String) : IO UInt32 := do
+  match args with
+  | [scriptPath, goPath] =>
+    let hs ← IO.FS.Handle.mk scriptPath .read
+    let hg ← IO.FS.Handle.mk goPath .read
+    let fails ← loop (IO.FS.Stream.ofHandle hs) (IO.FS.Stream.ofHandle hg) {} 1 0
+    IO.println s!"DONE fails={fails}"
+    return (if fails == 0 then 0 else 1)
+  | _ =>
+    IO.eprintln "usage: rdriver <script> <go-output>"
+    return 2
